@@ -107,6 +107,50 @@ def gen_cte_case(rnd):
     return c
 
 
+def gen_cte_multi_case(rnd):
+    """a CTE read several times within one WITH scope, incl. bodies with their own WITH, unions, joins and FROM dual roots"""
+    doc = gen_doc(rnd)
+    base_wh = rnd.choice([TRUE, ["cmp", "gt", col("n0"), num(1)], ["cmp", "ne", col("s0"), ["str", "b"]]])
+    inner = select([item(col("n0")), item(col("s0"))], table("t"), wh=base_wh)
+    shape = rnd.choice(["nested-with", "dual-union", "self-join", "union-root", "twice-in-chain", "subq-twice"])
+    staged = [("a", inner)]
+    if shape == "nested-with":
+        body = select([item(col("n0")), item(col("s0"))], table("z"), ctes=[["z", inner]])
+        qb = select([item(col("n0"))], table("a"), wh=["cmp", "ge", col("n0"), num(rnd.choice([1, 2]))])
+        qc = ["union", [], select([item(col("n0"))], table("b")), select([item(col("n0"))], table("a")), rnd.random() < 0.5, [], None, None, {}]
+        outer = select([item(col("n0"))], table("c"), ctes=[["a", body], ["b", qb], ["c", qc]])
+        staged = [("a", body), ("b", qb), ("c", qc)]
+    elif shape == "dual-union":
+        sub = ["union", [], select([item(col("n0"))], table("a")), select([item(col("n0"))], table("a")), False, [], None, None, {}]
+        outer = select([item(["subq", sub], "u")], table("dual"), ctes=[["a", inner]])
+    elif shape == "self-join":
+        outer = select([["star"]], ["join", join_type(rnd.choice(["JOIN", "LEFT JOIN", "HASH_JOIN"])), table("a", "x"), table("a", "y"),
+                                    ["cmp", "eq", col("x", "n0"), col("y", "n0")]], ctes=[["a", inner]])
+        c = mk_case(doc, outer, mode="multiset", tag="cte-multi:" + shape)
+        c["staged"] = staged
+        c["outer_plain"] = outer
+        c["multiset"] = True
+        return c
+    elif shape == "union-root":
+        outer = ["union", [["a", inner]], select([item(col("n0"))], table("a")),
+                 select([item(col("n0"))], table("a"), wh=["cmp", "gt", col("n0"), num(2)]), rnd.random() < 0.5, [], None, None, {}]
+        c = mk_case(doc, outer, mode="seq", tag="cte-multi:" + shape)
+        return c
+    elif shape == "twice-in-chain":
+        qb = select([item(col("n0"))], table("a"), wh=["cmp", "in", col("n0"), ["subq", select([item(col("n0"))], ["table", ["<-", "a"], "", "<-a", {"bt": True}])]])
+        outer = select([item(col("n0"))], table("b"), ctes=[["a", inner], ["b", qb]],
+                       wh=["cmp", "in", col("n0"), ["subq", select([item(col("n0"))], ["table", ["<-", "a"], "", "<-a", {"bt": True}])]])
+        staged = [("a", inner), ("b", qb)]
+    else:
+        sub1 = select([item(["aggr", "count", []], "n")], ["table", ["<-", "a"], "", "<-a", {"bt": True}])
+        sub2 = select([item(["aggr", "max", [col("n0")]], "m")], ["table", ["<-", "a"], "", "<-a", {"bt": True}])
+        outer = select([item(col("n0")), item(["subq", sub1], "c1"), item(["subq", sub2], "c2")], table("a"), ctes=[["a", inner]])
+    c = mk_case(doc, outer, mode="seq", tag="cte-multi:" + shape)
+    c["staged"] = staged
+    c["outer_plain"] = outer
+    return c
+
+
 def gen_cte_path_case(rnd):
     doc = gen_doc(rnd)
     inner = select([item(col("n0")), item(col("o")), item(col("items"))], table("t"),
@@ -215,7 +259,9 @@ def metamorphic(chk, cases, results):
     for i, o in zip(idx, outs):
         c, g = todo[i]
         chk.count("metamorphic-pairs")
-        if o.get("r") != "ok" or canon(dec_val(o["v"])) != canon(dec_val(g["v"])):
+        same = o.get("r") == "ok" and (as_multiset(dec_val(o["v"])) == as_multiset(dec_val(g["v"])) if c.get("multiset")
+                                       else canon(dec_val(o["v"])) == canon(dec_val(g["v"])))
+        if not same:
             chk.add_violation("metamorphic", {"sql": c["sql"], "doc": c["doc"], "composed": g,
                                              "staged_sql": reqs[idx.index(i)]["sql"], "staged": o,
                                              "materialised": {k: v for k, v in state[i]["doc"].items() if k not in c["doc"]}})
@@ -230,7 +276,7 @@ def explore(chk, rnd, tier):
         cases = []
         for _ in range(m):
             k = rnd.random()
-            cases.append(gen_cte_case(rnd) if k < 0.35 else gen_cte_path_case(rnd) if k < 0.45 else
+            cases.append(gen_cte_case(rnd) if k < 0.27 else gen_cte_multi_case(rnd) if k < 0.40 else gen_cte_path_case(rnd) if k < 0.47 else
                          gen_derived_case(rnd) if k < 0.65 else gen_subq_case(rnd))
         res = run_cases(chk, cases, nontrivial=nontrivial)
         metamorphic(chk, cases, res)
